@@ -480,6 +480,18 @@ FCQ_Preds == {"eq"}
 FCQ_Leaves == <<[p |-> pA, vals |-> {I(0), I(1)}, extra |-> FALSE],
                 [p |-> pB, vals |-> {I(1)}, extra |-> FALSE]>>
 
+\* family "coalesceiter" (C05, C06, C10): one fixed shape -- a coalesce whose first member is a LAZY collection (Iter) or a
+\* list over two options: the member is validated before it is chosen, so a member that would only fail while its
+\* elements are produced is never handed out
+FCI_Seq == <<"opt", "opt", "coll", "val", "coalesce">>
+FCI_Coll == {"iter", "list"}
+FCI_Leaves == <<[p |-> pA, vals |-> {I(1)}, extra |-> FALSE], [p |-> pB, vals |-> {I(2)}, extra |-> FALSE]>>
+\* family "failseq" (C12): one fixed shape -- every member of a coalesce fails and the last one fails in user code while
+\* it is being VALIDATED (a bind function that raises): the cause chain still ends in that exception object
+FFS_Seq == <<"opt", "val", "fnapp", "bind", "coalesce">>
+FFS_Disp == <<I(2)>>
+FFS_Leaves == <<[p |-> pB, vals |-> {I(1)}, extra |-> FALSE]>>
+
 \* family "siblings" (C01, C08): derivatives of one dataset with different pre-set / default options
 FS_Kinds == {"opt", "fnapp", "ds", "dsof", "coll"}
 FS_Paths == {pA, pSX}
